@@ -251,12 +251,15 @@ func (r *schemaLoader) deref(input interface{}, parentRefs []string, basePath st
 	}
 
 	followed := *ref // resolveRef overwrites input, hence this $ref
-	if err := r.resolveRef(ref, input, basePath); r.shouldStopOnError(err) {
+	*ref = Ref{}     // a target without $ref then leaves it empty, whatever the text of the $ref followed
+	if err := r.resolveRef(&followed, input, basePath); r.shouldStopOnError(err) {
+		*ref = followed
 		return r, basePath, err
 	}
 
-	if ref.String() == "" || ref.String() == curRef {
-		// done with rereferencing
+	if ref.String() == "" {
+		// done with rereferencing: the $ref followed is kept, it tells which document the element comes from
+		*ref = followed
 		return r, basePath, nil
 	}
 
